@@ -1326,48 +1326,268 @@ def run_i2c(case):
     return ok(nt=nbytes >= 2, cls=cls, cycles=cyc)
 
 
+# ===================================================================================== SPISlave
+
+def st_spis(tier):
+    @st.composite
+    def case(draw):
+        dw = draw(st.sampled_from([8, 16, 32, 12]))
+        xfers = []
+        for _ in range(draw(st.integers(1, 3))):
+            half = draw(st.sampled_from([4, 4, 5, 6, 9]))
+            n = draw(st.one_of(st.integers(1, dw), st.sampled_from([1, dw, min(dw, 8)])))
+            xfers.append({"n": n, "tx": draw(st.integers(0, (1 << n) - 1)), "resp": draw(st.integers(0, (1 << dw) - 1)),
+                          "half": half, "lead": draw(st.integers(max(half, 6), 2 * half + 4)),
+                          "trail": draw(st.integers(half, 2 * half + 2)), "idle": draw(st.integers(8, 20))})
+        return {"dw": dw, "xfers": xfers, "loopback": draw(st.integers(0, 4)) == 0}
+    return case()
+
+
+def run_spis(case):
+    from migen import Signal
+    from litex.soc.cores.spi.spi_slave import SPISlave
+    dw = case["dw"]
+
+    class Pads:
+        def __init__(self):
+            self.clk = Signal(name="sclk")
+            self.cs_n = Signal(name="cs_n", reset=1)
+            self.mosi = Signal(name="mosi")
+            self.miso = Signal(name="miso")
+
+    pads = Pads()
+    dut = SPISlave(pads, dw)
+    # reference mode-0 master as an open-loop waveform: rows (clk, cs_n, mosi, resp word) per cycle
+    wave = [(0, 1, 0, 0)] * 6
+    marks = []                      # per transfer: (cycle of cs fall, [cycles of rising edges], cycle of cs rise)
+    for x in case["xfers"]:
+        n, half = x["n"], x["half"]
+        bits = [(x["tx"] >> (n - 1 - i)) & 1 for i in range(n)]
+        wave += [(0, 1, 0, x["resp"])] * 3
+        fall = len(wave)
+        wave += [(0, 0, bits[0], x["resp"])] * x["lead"]
+        rises = []
+        for i in range(n):
+            rises.append(len(wave))
+            wave += [(1, 0, bits[i], x["resp"])] * half
+            nxt = bits[i + 1] if i + 1 < n else bits[i]
+            wave += [(0, 0, nxt, x["resp"])] * (half if i + 1 < n else x["trail"])
+        rise_cs = len(wave)
+        wave += [(0, 1, 0, x["resp"])] * x["idle"]
+        marks.append((fall, rises, rise_cs))
+    wave += [(0, 1, 0, 0)] * 8
+    n_cyc = len(wave)
+
+    def drive(t):
+        r = wave[t + 1] if t + 1 < n_cyc else wave[-1]
+        return {pads.clk: r[0], pads.cs_n: r[1], pads.mosi: r[2], dut.miso: r[3], dut.loopback: int(case["loopback"])}
+
+    probe = bench.Probe([pads.miso, dut.start, dut.done, dut.irq, dut.mosi, dut.length])
+    cyc = bench.run(dut, [bench.Driver(drive), probe], n_cyc)
+    tr = probe.trace
+    cls = ["spis:dw%d" % dw] + (["spis:loopback"] if case["loopback"] else [])
+    what = "SPISlave(data_width=%d%s)" % (dw, ", loopback" if case["loopback"] else "")
+    starts = [c for c, r in enumerate(tr) if r[1]]
+    irqs = [c for c, r in enumerate(tr) if r[3]]
+    if len(starts) != len(marks) or len(irqs) != len(marks):
+        return bad("spis-events", "%s: %d transfers, start pulses at %r, irq pulses at %r" % (what, len(marks), starts, irqs),
+                   key="c19:spis:events", cls=cls, cycles=cyc)
+    for i, ((fall, rises, rise_cs), x) in enumerate(zip(marks, case["xfers"])):
+        n = x["n"]
+        tag = "%s: transfer %d (%d bits %#x, SPI clock = %d system cycles, cs low at %d)" % (what, i, n, x["tx"], 2 * x["half"], fall)
+        if not (fall < starts[i] <= fall + 4) or not (rise_cs < irqs[i] <= rise_cs + 4):
+            return bad("spis-events", tag + ": start pulse at %d, irq pulse at %d, cs high at %d" % (starts[i], irqs[i], rise_cs),
+                       key="c19:spis:events", cls=cls, cycles=cyc)
+        chk = rise_cs + 6
+        got, length, done = tr[chk][4], tr[chk][5], tr[chk][2]
+        if not done:
+            return bad("spis-done", tag + ": done=0 six cycles after cs went high", key="c19:spis:done", cls=cls, cycles=cyc)
+        if any(tr[c][2] for c in range(fall + 4, rise_cs)):
+            return bad("spis-done", tag + ": done=1 during the transfer", key="c19:spis:done", cls=cls, cycles=cyc)
+        if length != n:
+            return bad("spis-length", tag + ": length reads %d" % length, key="c19:spis:length", cls=cls, cycles=cyc)
+        if got & ((1 << n) - 1) != x["tx"]:
+            return bad("spis-mosi", tag + ": received word %#x, low %d bits should be %#x" % (got, n, x["tx"]), key="c19:spis:mosi", cls=cls, cycles=cyc)
+        for r in rises:
+            high = {tr[c][0] for c in range(r - 1, r + x["half"])}
+            if len(high) != 1:
+                return bad("spis-miso-stable", tag + ": MISO changes while SCLK is high (cycles %d..%d); mode 0 shifts on the falling edge" % (
+                    r, r + x["half"] - 1), key="c19:spis:miso-stable", cls=cls, cycles=cyc)
+        sampled = [tr[r - 1][0] for r in rises]          # the master samples just before it raises the clock
+        if case["loopback"]:
+            exp = [(x["tx"] >> (n - 1 - k)) & 1 for k in range(n)]
+        else:
+            exp = [(x["resp"] >> (dw - 1 - k)) & 1 for k in range(n)]
+        if sampled != exp:
+            return bad("spis-miso", tag + ": MISO at the rising edges %r, expected %r (MSB first)" % (sampled, exp), key="c19:spis:miso",
+                       cls=cls, cycles=cyc)
+        if x["half"] == 4:
+            cls.append("spis:8-cycles-per-clock")
+    return ok(nt=len(marks) >= 2, cls=sorted(set(cls)), cycles=cyc)
+
+
+# ===================================================================================== UART core (FIFOs, status, events) with a stub PHY
+
+def st_uartcore(tier, flush=False):
+    @st.composite
+    def case(draw):
+        depth_tx = draw(st.sampled_from([2, 4, 16]))
+        depth_rx = draw(st.sampled_from([2, 4, 16]))
+        gap = st.one_of(st.integers(0, 2), st.integers(0, 2), st.integers(0, 12))
+        ops = []
+        for _ in range(draw(st.integers(6, 40))):
+            k = draw(st.sampled_from(["tx", "tx", "tx", "rd", "clr", "clr", "ien"]))
+            if k == "tx":
+                ops.append([draw(gap), "tx", draw(st.integers(0, 255))])
+            elif k == "rd":
+                ops.append([draw(gap), "rd", 0])
+            elif k == "clr":
+                ops.append([draw(gap), "clr", draw(st.sampled_from([2, 2, 3, 1]))])
+            else:
+                ops.append([draw(gap), "ien", draw(st.integers(0, 3))])
+        return {"dtx": depth_tx, "drx": depth_rx, "rx_we": draw(st.booleans()), "ops": ops,
+                "rx": draw(st.lists(st.integers(0, 255), min_size=0, max_size=20)), "rxs": draw(bench.st_schedule()),
+                "txs": draw(bench.st_schedule()), "flush": flush}
+    return case()
+
+
+def run_uartcore(case):
+    from litex.soc.cores.uart import UART
+    core = UART(phy=None, tx_fifo_depth=case["dtx"], rx_fifo_depth=case["drx"], rx_fifo_rx_we=case["rx_we"])
+    if case["flush"]:
+        core.add_auto_tx_flush(sys_clk_freq=1000, timeout=0.016, interval=2)       # 16 cycles without ready -> flush
+    top = periph.csr_top(core)
+    sched, tend = periph.schedule_ops(case["ops"])
+    regname = {"tx": "rxtx", "clr": "ev_pending", "ien": "ev_enable"}
+    writes = {t: (regname[op[1]], op[2]) for t, op in sched.items() if op[1] != "rd"}
+    reads = {t: "rxtx" for t, op in sched.items() if op[1] == "rd"}
+    main = tend + 8
+    # drain phase: software pops the receive FIFO until empty, PHY always ready
+    drain_ops = {}
+    t = main
+    for _ in range(len(case["rx"]) + 2):
+        drain_ops[t] = ("ev_pending", 2)
+        t += 3
+    writes.update(drain_ops)
+    n = t + case["dtx"] * 3 + 40
+    toks = [((b,), (), 0, 0) for b in case["rx"]]
+    prod = bench.Producer(core.sink, toks, case["rxs"], until=main)
+    cons = bench.Consumer(core.source, case["txs"], until=main if not case["flush"] else None)
+    sigs = [core._rxtx.re, core._rxtx.r, core._txfull.status, core._rxtx.we, core._rxtx.w, core._rxempty.status, core.ev.rx.clear,
+            core._txempty.status, core._rxfull.status, core.ev.tx.trigger, core.ev.rx.trigger, core.ev.tx.pending, core.ev.rx.pending,
+            core.ev.irq, core.ev.enable.storage, core.ev.tx.clear]
+    probe = bench.Probe(sigs)
+    cyc = bench.run(top, [periph.BusProgram(top, writes, reads), prod, cons, probe], n)
+    RE, R, TXFULL, WE, W, RXEMPTY, RXCLR, TXEMPTY, RXFULL, TTRIG, RTRIG, TPEND, RPEND, IRQ, IEN, TXCLR = range(16)
+    tr = probe.trace
+    what = "UART(tx_fifo_depth=%d, rx_fifo_depth=%d, rx_fifo_rx_we=%r%s)" % (case["dtx"], case["drx"], case["rx_we"],
+                                                                             ", auto tx flush" if case["flush"] else "")
+    cls = ["uart:dtx%d" % case["dtx"], "uart:drx%d" % case["drx"]] + (["uart:auto-flush"] if case["flush"] else [])
+    accepted, dropped, popped = [], 0, []
+    tp = rp = 0
+    ttd = rtd = 0
+    for c, r in enumerate(tr):
+        if r[TTRIG] != 1 - r[TXFULL] or r[RTRIG] != 1 - r[RXEMPTY]:
+            return bad("uart-event-source", "%s: cycle %d: tx/rx event lines %d/%d but txfull=%d rxempty=%d" % (
+                what, c, r[TTRIG], r[RTRIG], r[TXFULL], r[RXEMPTY]), key="c19:uart:event-source", cls=cls, cycles=cyc)
+        if (r[TPEND], r[RPEND]) != (tp, rp) or r[IRQ] != int(bool((tp | (rp << 1)) & r[IEN])):
+            return bad("uart-pending", "%s: cycle %d: pending tx/rx %d/%d irq %d, expected %d/%d (enable %d)" % (
+                what, c, r[TPEND], r[RPEND], r[IRQ], tp, rp, r[IEN]), key="c19:uart:pending", cls=cls, cycles=cyc)
+        ntp = 0 if r[TXCLR] else tp
+        nrp = 0 if r[RXCLR] else rp
+        if r[TTRIG] and not ttd:
+            ntp = 1
+        if r[RTRIG] and not rtd:
+            nrp = 1
+        tp, rp, ttd, rtd = ntp, nrp, r[TTRIG], r[RTRIG]
+        if r[RE]:
+            if r[TXFULL]:
+                dropped += 1
+            else:
+                accepted.append(r[R])
+        if (r[RXCLR] or (case["rx_we"] and r[WE])) and not r[RXEMPTY]:
+            popped.append(r[W])
+    sent = [tok[0][0] for _, tok in cons.got]
+    pushed = [tok[0][0] for _, tok in prod.sent]
+    if cons.hold_violations and not case["flush"]:
+        return bad("uart-tx-hold", "%s: source endpoint: %s" % (what, cons.hold_violations[0],), key="c19:uart:tx-hold", cls=cls, cycles=cyc)
+    if case["flush"]:
+        it = iter(accepted)
+        if not all(any(b == a for a in it) for b in sent):
+            return bad("uart-tx-order", "%s: bytes handed to the PHY %r are not a subsequence of the bytes written while not full %r" % (
+                what, sent, accepted), key="c19:uart:auto-flush-duplicate", cls=cls, cycles=cyc)
+    elif sent != accepted:
+        return bad("uart-tx-order", "%s: bytes written while txfull=0: %r, bytes handed to the PHY: %r" % (what, accepted, sent),
+                   key="c19:uart:tx-order", cls=cls, cycles=cyc)
+    if pushed != case["rx"]:
+        return bad("uart-rx-stuck", "%s: the receive path accepted only %d of %d bytes although software drained it" % (
+            what, len(pushed), len(case["rx"])), key="c19:uart:rx-stuck", cls=cls, cycles=cyc)
+    if popped != pushed:
+        return bad("uart-rx-order", "%s: bytes from the PHY %r, bytes popped by software (rxtx while rxempty=0) %r" % (what, pushed, popped),
+                   key="c19:uart:rx-order", cls=cls, cycles=cyc)
+    last = tr[-1]
+    if not last[TXEMPTY] or last[TXFULL] or not last[RXEMPTY] or last[RXFULL]:
+        return bad("uart-idle", "%s: at the end txempty=%d txfull=%d rxempty=%d rxfull=%d" % (what, last[TXEMPTY], last[TXFULL], last[RXEMPTY],
+                                                                                          last[RXFULL]), key="c19:uart:idle", cls=cls, cycles=cyc)
+    if dropped:
+        cls.append("uart:write-while-full")
+    if any(r[RXFULL] for r in tr):
+        cls.append("uart:rx-fifo-full")
+    return ok(nt=len(accepted) >= 3 and len(pushed) >= 3, cls=cls, cycles=cyc)
+
+
 # ===================================================================================== registry
 
 def subchecks():
     return [
-        Sub("timer", run_timer, strategy=st_timer, examples=(400, 8000),
+        Sub("timer", run_timer, strategy=st_timer, examples=(300, 8000), shards=(6, 16),
             rule="Timer: CSR histories of load/reload/en/update_value/pending/enable writes; count, zero event, one-shot "
                  "after exactly `load` cycles, reload, stop, latch, uptime; nt = reload at zero and a disable"),
-        Sub("uart-tx", run_uart_tx, strategy=st_uart_tx, examples=(320, 6000),
+        Sub("uart-tx", run_uart_tx, strategy=st_uart_tx, examples=(320, 6000), shards=(10, 16),
             rule="RS232PHYTX / RS232PHY: bytes, gaps 0.. between offers, tuning words with 4..48 (thorough 400) cycles per bit; "
                  "per-frame monitor: start, 8 data LSB first, stop, every cell boundary within 1 cycle of start + k*2^32/tw, "
                  "one handshake per byte, idle 1; nt = >= 2 bytes with a back-to-back offer"),
-        Sub("uart-rx", run_uart_rx, strategy=st_uart_rx, examples=(320, 6000),
+        Sub("uart-rx", run_uart_rx, strategy=st_uart_rx, examples=(320, 6000), shards=(12, 16),
             rule="RS232PHYRX: fractional-time line driver, eps within the measured envelope, start phase n/16 cycle, gaps 0..3 bit, "
                  "framing errors and breaks must not deliver and must not disturb later frames; nt = |eps| >= 1.5 % or gap 0"),
-        Sub("waittimer", run_waittimer, strategy=st_waittimer, examples=(160, 3000),
+        Sub("waittimer", run_waittimer, strategy=st_waittimer, examples=(160, 3000), shards=(2, 16),
             rule="WaitTimer(t): done <=> wait was high during the last t cycles; generated wait schedules, final hold; nt = a count "
                  "interrupted before completion and a completed one"),
-        Sub("timeline", run_timeline, strategy=st_timeline, examples=(120, 2000),
+        Sub("timeline", run_timeline, strategy=st_timeline, examples=(120, 2000), shards=(2, 16),
             rule="timeline(trigger, events): each accepted trigger fires every event once at its offset, triggers while busy are "
                  "ignored, the sequencer stops; nt = >= 2 accepted triggers and one ignored"),
-        Sub("pwm", run_pwm, strategy=st_pwm, examples=(160, 3000),
+        Sub("pwm", run_pwm, strategy=st_pwm, examples=(160, 3000), shards=(2, 16),
             rule="PWM behind its CSRs: settings rewritten at run time; in every settled interval the output has the programmed period "
                  "and min(width, period) high cycles per period, is low when disabled; nt = >= 2 settings, one with 0 < width < period"),
-        Sub("watchdog", run_watchdog, strategy=st_watchdog, examples=(240, 5000),
+        Sub("watchdog", run_watchdog, strategy=st_watchdog, examples=(200, 5000), shards=(4, 16),
             rule="Watchdog behind its CSRs (+ halted input): cycles/feed/enable/reset/pause histories; remaining count (feed, one step "
                  "per enabled cycle, saturation at 0, pause), time-out event, pending/irq, crg_rst after reset_delay; nt = fed while "
                  "counting and saturated at zero"),
-        Sub("watchdog-delay0", run_watchdog, strategy=lambda tier: st_watchdog(tier, probe="delay0"), examples=(32, 400),
+        Sub("watchdog-delay0", run_watchdog, strategy=lambda tier: st_watchdog(tier, probe="delay0"), examples=(32, 400), shards=(2, 16),
             rule="as watchdog with reset_delay=0 (the constructor default), kept apart because of finding c19:watchdog:reset-delay-0"),
-        Sub("i2c", run_i2c, strategy=st_i2c, examples=(240, 5000),
+        Sub("i2c", run_i2c, strategy=st_i2c, examples=(208, 5000), shards=(8, 16),
             rule="I2CMaster at its pads (mock open-drain tristates, scripted Migen slave): protocol-shaped transactions issued like "
                  "software (status polled, 0.. cycles latency) must put exactly START / bytes MSB first + ack / repeated START / STOP "
                  "on the bus with SCL phases >= load+1, report read data and acks; arbitrary command sequences at arbitrary times "
                  "(also while busy) must keep SDA stable while SCL changes, emit START/STOP only on command and return to idle; "
                  "nt = transaction with >= 2 bytes (seq) / >= 4 commands (any)"),
-        Sub("i2c-busy", run_i2c, strategy=lambda tier: st_i2c(tier, busy=True), examples=(48, 800),
+        Sub("spis", run_spis, strategy=st_spis, examples=(200, 4000), shards=(4, 16),
+            rule="SPISlave driven by a reference mode-0 master waveform at >= 8 system cycles per SPI clock: received word, length, "
+                 "MISO bits MSB first (or loopback), one start and one irq pulse per transfer, done between transfers; nt = >= 2 transfers"),
+        Sub("uart-core", run_uartcore, strategy=st_uartcore, examples=(144, 4000), shards=(6, 16),
+            rule="UART core behind its CSRs with a stub PHY (stream agents): bytes written while txfull=0 reach the PHY once and in "
+                 "order, bytes from the PHY are popped in order (pending-clear or read strobe), event lines follow the FIFO flags, "
+                 "pending/irq model, everything drains; nt = >= 3 bytes each way"),
+        Sub("uart-core-flush", run_uartcore, strategy=lambda tier: st_uartcore(tier, flush=True), examples=(32, 800), shards=(2, 16),
+            rule="as uart-core with add_auto_tx_flush (16 cycles): bytes reaching the PHY are a subsequence of the accepted ones, "
+                 "everything drains even if the PHY never becomes ready (kept apart because of finding c19:uart:auto-flush-duplicate)"),
+        Sub("i2c-busy", run_i2c, strategy=lambda tier: st_i2c(tier, busy=True), examples=(48, 800), shards=(2, 16),
             rule="as i2c/any, but commands are written at arbitrary times, also while the previous one is running (kept apart because "
                  "of finding c19:i2c:command-while-busy)"),
-        Sub("spim-divider", run_spim, strategy=lambda tier: st_spim(tier, shrink_div=True), examples=(48, 800),
+        Sub("spim-divider", run_spim, strategy=lambda tier: st_spim(tier, shrink_div=True), examples=(48, 800), shards=(2, 16),
             rule="as spim, but the divider register is also lowered between transfers (kept apart because of finding "
                  "c19:spim:divider-shrink-stall, so that the search in 'spim' continues)"),
-        Sub("spim", run_spim, strategy=st_spim, examples=(400, 8000),
+        Sub("spim", run_spim, strategy=st_spim, examples=(320, 8000), shards=(10, 16),
             rule="SPIMaster behind its CSRs with an ideal mode-0 slave (Migen) on the pads: data_width 8..32, raw/aligned, 1..3 cs "
                  "lines, divider 2..64 raised at run time, loopback, start offsets swept over the divider phase, second start / "
                  "mosi rewrite during a transfer, next start 0..5 cycles after done; nt = >= 2 transfers, one started mid-phase"),
